@@ -87,6 +87,23 @@ FN_EXPRS = [
     'let $s := string-join(//a/@x, ",") return function() { $s }', 'function() { count(//*) }',
 ]
 
+# a binder whose result generator is abandoned early, followed by a read of the same name from the caller's variables;
+# serialisation with parameters (the input tree must stay as it is)
+ABANDON_EXPRS = [
+    '(exists(for $i in (10, 20, 30) return $i), $i)', '(head(for $i in 1 to 3 return $i * 2), $i)',
+    '(some $s in ("x", "y") satisfies $s = "x", $s)', '(boolean(for $d in (1, 2) return $d), $d)',
+    '((for $i in 1 to 5 return $i)[1], $i)', '(empty(for $s in //a return $s), $s)',
+    '(every $i in (1, 2, 3) satisfies $i lt 2, $i)', '(subsequence(for $i in 1 to 9 return $i, 1, 1), $i)',
+    '(let $i := 7 return $i, $i)', '(//a ! (let $s := name(.) return $s))[1], $s',
+]
+SERIALIZE_EXPRS = [
+    'serialize(//a, map{"standalone": true()})', 'serialize(/r, map{"method": "xml", "indent": true()})',
+    'serialize(/r, map{"omit-xml-declaration": false(), "standalone": false()})', 'serialize(//b, map{"method": "text"})',
+    'serialize((//a)[1], map{"method": "html"})', 'serialize(//*[1], map{"standalone": ()})',
+    'serialize(/r/*, map{"item-separator": "|", "omit-xml-declaration": true()})', 'serialize(//c)',
+    'string-length(serialize(/r, map{"standalone": true(), "indent": false()}))',
+]
+
 VAR_EXPRS = [
     '$i + 1', '$i * $d', '$s', 'concat($s, "-", $u)', '$u + 1', '$u = "12"', '($i, $d, $s)', 'string($u)',
     '$dt', 'string($dt)', '$dt + $dur', '$dt - $dt2', '$dt lt $dt2', '$dt eq $dt2', '$date + $dur',
